@@ -330,5 +330,6 @@ class SimpleCfg:
         return {"name": self.name, "source": self.source(), "std": self.std, "compiler": self.compiler, "extra": self.extra, "san": self.san, "opt": self.opt}
 
 
+REALLOC_DIRECT = [SimpleCfg("rd", "realloc_direct_main.cpp", "c++17"), SimpleCfg("rd", "realloc_direct_main.cpp", "c++11")]
 ALGO_QUICK = [SimpleCfg("ma", "mem_algos_main.cpp", s) for s in ("c++11", "c++14", "c++17", "c++20")]
 ALGO_THOROUGH = [SimpleCfg("ma", "mem_algos_main.cpp", s, "clang++-14") for s in ("c++11", "c++14", "c++17", "c++20")]
